@@ -49,7 +49,10 @@ Definition tcover (s : state) (e : nat) : bool :=
 Definition tz (s : state) (f : nat) : bool :=
   tokb s 0 || posb (np (is_unpark 0) s)
   || (bool_decide (s.(qs) = WaitingForPoll f) && existsb (tcover s) (seq 0 (length s.(evs)))).
-(* for [tz] the poll is in progress up to and including FDQwfp (which sets WaitingForPoll and builds the DoubleWaker) *)
+(* for [tz] the poll is in progress up to and including FDQwfp (which sets WaitingForPoll and builds the DoubleWaker).
+   [tz] / [tzf] / [zq_ok] / [zero_ok] are the boolean (testable) forms used for simulation; the proofs use the Prop forms
+   ZeroInv.Inv_zp / Inv_zq and ZeroTz.tzP / Inv_tz (membership of a poll frame in the stack instead of adjacency, and an
+   existential over all events instead of the events in range) *)
 Definition pollprog2 (fr : frame) : option nat := match fr with FDQwfp f _ | FDQempty2 f => Some f | _ => pollprog fr end.
 Definition inprog2 (prev : option frame) (f : nat) : bool :=
   match prev with Some x => match pollprog2 x with Some f' => bool_decide (f' = f) | None => false end | None => false end.
